@@ -7,6 +7,7 @@ cd /repo || exit 9
 if [ -n "$(git status --porcelain -- src)" ]; then echo "repo dirty"; exit 9; fi
 git apply "$patch" || { echo "patch does not apply"; exit 9; }
 cd /verif
+export VERIF_OUT_DIR=/tmp/mut/out-$id; mkdir -p $VERIF_OUT_DIR
 for c in "$@"; do
   out=$(./check $c --tier ${TIER:-quick} 2>&1); rc=$?
   echo "== $id $c rc=$rc"
